@@ -125,18 +125,25 @@ def _native_proc(jobs, timeout=1800):
     env.pop("NUMBA_DISABLE_JIT", None)
     alt = os.environ.get("VERIF_STRAX_ROOT")
     env["PYTHONPATH"] = (alt + os.pathsep + ROOT) if alt else ROOT
-    if alt:
-        env["NUMBA_CACHE_DIR"] = os.path.join(alt, ".numba_cache")
-    env.setdefault("NUMBA_CACHE_DIR", os.path.join(ROOT, ".numba_cache"))
-    p = subprocess.run([PY, "-c", _NATIVE_CODE], input=json.dumps(jobs, default=str), capture_output=True,
-                       text=True, env=env, timeout=timeout, cwd=ROOT)
+    # a private numba cache per native interpreter: concurrent writers to one on-disk cache were seen to hand a process
+    # the wrong compiled specialisation (a replay disagreed with the same call made alone)
+    import shutil
+    import tempfile
+
+    cdir = tempfile.mkdtemp(prefix="verif_numba_")
+    env["NUMBA_CACHE_DIR"] = cdir
+    try:
+        p = subprocess.run([PY, "-c", _NATIVE_CODE], input=json.dumps(jobs, default=str), capture_output=True,
+                           text=True, env=env, timeout=timeout, cwd=ROOT)
+    finally:
+        shutil.rmtree(cdir, ignore_errors=True)
     for line in p.stdout.splitlines():
         if line.startswith("@@RESULT@@"):
             return json.loads(line[len("@@RESULT@@"):])
     raise RuntimeError(f"native replay failed: {p.stdout[-2000:]} {p.stderr[-2000:]}")
 
 
-def native_batch(prop, jobs, nproc=8):
+def native_batch(prop, jobs, nproc=4):
     """jobs: list of (ob_name, params, [models]) -> list of [result per model] (native, compiled code)."""
     if not jobs:
         return []
